@@ -1,7 +1,12 @@
 """Per-property verification plans: which TLC model-checking instances, which
 drivers (record) / schedules (exec) and which trace specification."""
+import os
 
-SETUP_VARIANTS = [("release", "")]
+ROOT = os.path.dirname(os.path.dirname(os.path.abspath(__file__)))
+GEN = os.path.join(ROOT, "gen")
+
+SETUP_VARIANTS = [("release", ""), ("release", "no_copy_impls"), ("release", "checks"), ("dev", ""),
+                  ("dev", "checks,no_copy_impls")]
 
 REL = ("release", "")
 DEV = ("dev", "")
@@ -17,18 +22,331 @@ def shards(name, driver, n, seed, args, module="Trace_BitStream", variant=REL):
     return out
 
 
+def cfg_shards(name, driver, nshards, seed, args, pick=None, module="Trace_BitStream", variant=REL):
+    """one unit per configuration shard (shard i handles configurations i, i+n, ...)"""
+    out = []
+    for i in range(nshards):
+        if pick is not None and i not in pick:
+            continue
+        a = dict(args)
+        a.update(seed=seed * 1000 + i, shard=i, nshards=nshards)
+        out.append(dict(kind="record", name="%s-%d" % (name, i), driver=driver, args=a, module=module,
+                        variant=variant))
+    return out
+
+
+# ------------------------------------------------------------------ MC instances
+
+def mc_writer(w, e, depth, full, live=False):
+    return dict(live=live, name="bufwriter_w%d_%s_d%d_%s" % (w, e, depth, "full" if full else "bnd"), module="MC_BufWriter",
+                workers=4, timeout=3600,
+                cfg_text='SPECIFICATION Spec\nCONSTANTS W = %d\n E = "%s"\n Depth = %d\n Full = %s\n'
+                         'INVARIANTS Refines RepOK\nCHECK_DEADLOCK FALSE\n' % (w, e, depth, "TRUE" if full else "FALSE"))
+
+
+def mc_reader(w, e, strict, pat, depth, full, live=False):
+    return dict(live=live, name="bufreader_w%d_%s_%s_p%d_d%d_%s" % (w, e, "strict" if strict else "inf", pat, depth, "full" if full else "bnd"),
+                module="MC_BufReader", workers=4, timeout=7200,
+                cfg_text='SPECIFICATION Spec\nCONSTANTS W = %d\n E = "%s"\n Strict = %s\n Pat = %d\n NW = 5\n Depth = %d\n'
+                         ' Full = %s\n Data <- DataConst\nINVARIANTS Refines\nCHECK_DEADLOCK FALSE\n'
+                         % (w, e, "TRUE" if strict else "FALSE", pat, depth, "TRUE" if full else "FALSE"))
+
+
+def writer_mcs(tier):
+    out = []
+    for e in ("be", "le"):
+        out.append(mc_writer(8, e, 1, True, live=True))
+        out.append(mc_writer(8, e, 2, True))
+        for w in (16, 32, 64, 128):
+            out.append(mc_writer(w, e, 1, True))
+    return out
+
+
+def reader_mcs(tier):
+    out = []
+    for e in ("be", "le"):
+        for strict in (False, True):
+            out.append(mc_reader(8, e, strict, 4, 1, True, live=True))
+            out.append(mc_reader(8, e, strict, 4, 2, True))
+            out.append(mc_reader(16, e, strict, 4, 1, True))
+            for w in (32, 64):
+                out.append(mc_reader(w, e, strict, 4, 1, tier == "thorough"))
+        if tier == "thorough":
+            for pat in (1, 2, 3):
+                out.append(mc_reader(8, e, False, pat, 2, True))
+                out.append(mc_reader(16, e, True, pat, 1, True))
+    return out
+
+
+# ------------------------------------------------------------------ plans
+
+NW = 40   # writer configurations
+NR = 56   # reader configurations
+
+
+def pick_cfgs(n, k, seed):
+    """k configuration shards out of n, rotating with the seed so that repeated quick runs cover all"""
+    if k >= n:
+        return None
+    return {(seed * 7 + i * (n // k) + (seed % max(1, n // k))) % n for i in range(k)}
+
+
 def c01(tier, seed):
     q = tier == "quick"
+    units = cfg_shards("wstates", "wstates", NW, seed,
+                       dict(paths=os.path.join(GEN, "writer_paths.ndjson"), ops="c01", full=0 if q else 1),
+                       pick=pick_cfgs(NW, 10, seed) if q else None)
+    units += shards("hist", "hist", 6 if q else 32, seed, dict(histories=5 if q else 20, len=40))
     return dict(
-        rule="random writer histories replicated on all five word sizes and random backends; "
-             "every call is one trace event validated by TLC against BitStream (layout contract, "
-             "append-only delivery, flush/close semantics)",
-        units=shards("hist", "hist", 8 if q else 32, seed, dict(histories=6 if q else 20, len=40)),
+        needs_gen=True,
+        mc=writer_mcs(tier),
+        rule="(a) TLC model-checks the implementation-shaped writer (every space_left x garbage regime x "
+             "operation, all five word sizes) against the abstract writer; (b) for every space_left state "
+             "(TLC-generated shortest history) x every operation of the alphabet, on real writers of every "
+             "configuration; (c) random histories replicated on all word sizes. Every call is a trace event "
+             "validated by TLC against BitStream. distinct = (configuration, space_left, operation kind).",
+        units=units,
     )
 
 
-PLANS = {"C01": c01}
+def c02(tier, seed):
+    q = tier == "quick"
+    units = cfg_shards("rstates", "rstates", NR, seed,
+                       dict(paths=os.path.join(GEN, "reader_paths.ndjson"), ops="c02", full=0 if q else 1,
+                            images=1 if q else 3),
+                       pick=pick_cfgs(NR, 12, seed) if q else None)
+    units += shards("hist", "hist", 6 if q else 32, seed, dict(histories=5 if q else 20, len=40))
+    return dict(
+        needs_gen=True,
+        mc=reader_mcs(tier),
+        rule="(a) TLC model-checks the implementation-shaped buffered reader (every cursor x fill level x "
+             "operation) against the abstract reader; (b) every fill state (TLC-generated shortest history) x "
+             "every operation + continuation on real readers of every configuration and several images; "
+             "(c) random histories. distinct = (configuration, fill level, operation kind).",
+        units=units,
+    )
+
+
+def code_units(mode, tier, seed, n_quick=15, n_thorough=60):
+    q = tier == "quick"
+    n = n_quick if q else n_thorough
+    return cfg_shards("codes-" + mode, "codes", n, seed, dict(mode=mode, full=0 if q else 1))
+
+
+MC_CODES = dict(name="codes_theorems", module="MC_Codes", cfg="MC_Codes.cfg", workers=1, timeout=3600)
+
+
+def c03(tier, seed):
+    q = tier == "quick"
+    units = code_units("concat", tier, seed) + code_units("offsets", tier, seed)
+    units += shards("hist", "hist", 4 if q else 16, seed + 17, dict(histories=5 if q else 20, len=40))
+    return dict(
+        mc=[MC_CODES],
+        rule="(a) TLC checks the codebook theorems (Dec(Enc(n) o tail) = n, position = CLen, prefix-freeness) on "
+             "grids; (b) for every code x parameter x value of the grids: concatenated streams with raw fields "
+             "written by random writer configurations and read back by random reader configurations with every "
+             "table option (clones at the same position); (c) offset sweep o in 0..2W+1 with three kinds of "
+             "tails. Every read event is validated by TLC against Codes!Dec on the recorded byte image. "
+             "distinct = (family, parameter, value).",
+        units=units,
+    )
+
+
+def c04(tier, seed):
+    return dict(
+        mc=[MC_CODES],
+        rule="every code x parameter x value of the grids written alone at a word boundary by writers of "
+             "several/all word sizes with every table option; TLC compares the delivered bytes with "
+             "Codes!Enc (the published definition) through the layout contract. distinct = (family, parameter, value).",
+        units=code_units("alone", tier, seed),
+    )
+
+
+def c06(tier, seed):
+    return dict(
+        mc=[MC_CODES],
+        rule="length functions (every table variant, enum dispatch) logged as len events and compared by TLC "
+             "with Codes!CLen; the value returned by each write and the advance of each read are compared with "
+             "the same closed form in the write/read events. distinct = (family, parameter, value).",
+        units=code_units("alone", tier, seed + 1) + code_units("concat", tier, seed + 1, 8, 30),
+    )
+
+
+RP = os.path.join(GEN, "reader_paths.ndjson")
+WP = os.path.join(GEN, "writer_paths.ndjson")
+
+
+def c05(tier, seed):
+    q = tier == "quick"
+    units = cfg_shards("tables", "tables", NR, seed, dict(full=0 if q else 1, frac=16 if q else 1),
+                       pick=pick_cfgs(NR, 14, seed) if q else None)
+    units += code_units("alone", tier, seed + 2, 8, 30)        # encode / length tables: every entry
+    units += code_units("concat", tier, seed + 2, 8, 30)       # defaults and every table option on read
+    return dict(
+        needs_gen=True,
+        mc=[MC_CODES] + [m for m in reader_mcs("quick") if "_d1_" in m["name"]],
+        rule="every look-ahead pattern of the gamma/delta/zeta3 decoding tables (quick: 1/16 of them, rotating "
+             "with the seed) x alignments x {no extra refill, extra look-ahead refill} x every table option the "
+             "reader was not diagnosed as unable to serve, decoded on clones; every value up to the encoding / "
+             "length table limits written with every option; all validated by TLC against Codes!Dec/Enc/CLen. "
+             "distinct = (table, endianness, pattern, word size, variant, alignment).",
+        units=units,
+    )
+
+
+def c07(tier, seed):
+    q = tier == "quick"
+    units = cfg_shards("seeks", "rstates", NR, seed, dict(paths=RP, ops="c07", full=0 if q else 1, images=1 if q else 2),
+                       pick=pick_cfgs(NR, 12, seed) if q else None)
+    units += shards("hist", "hist", 6 if q else 24, seed + 3, dict(histories=5 if q else 20, len=40))
+    units += code_units("offsets", tier, seed + 3, 8, 30)
+    return dict(
+        needs_gen=True,
+        mc=[m for m in reader_mcs(tier)],
+        rule="from every fill state, seek to every target (all p for short streams, word boundaries +-1 and a "
+             "stride otherwise) followed by a continuation, on every seekable configuration (memory readers, "
+             "writers read back, Cursor and BufReader<Cursor> through the byte adapter, unbuffered); the "
+             "position reported after every call of every schedule is compared by TLC with the abstract position. "
+             "distinct = (configuration, fill level, operation kind).",
+        units=units,
+    )
+
+
+def c08(tier, seed):
+    q = tier == "quick"
+    units = cfg_shards("copy", "copy", NR, seed, dict(rpaths=RP, wpaths=WP, full=0 if q else 1),
+                       pick=pick_cfgs(NR, 12, seed) if q else None)
+    if not q:
+        units += cfg_shards("copy-nci", "copy", NR, seed + 1, dict(rpaths=RP, wpaths=WP, full=0),
+                            variant=("release", "no_copy_impls"))
+    else:
+        units += cfg_shards("copy-nci", "copy", NR, seed + 1, dict(rpaths=RP, wpaths=WP, full=0),
+                            pick=pick_cfgs(NR, 4, seed + 5), variant=("release", "no_copy_impls"))
+    return dict(
+        needs_gen=True,
+        mc=writer_mcs(tier) + reader_mcs(tier),
+        rule="every source fill state (TLC-generated histories) x n around every boundary (all n for small "
+             "words in thorough) x copy_to / copy_from x destination word sizes at random fill levels, followed by "
+             "continuations on both streams; in the default build (optimised paths) and in the no_copy_impls "
+             "build (generic chunked copy). distinct = (reader configuration, fill level, writer word, direction).",
+        units=units,
+    )
+
+
+def c09(tier, seed):
+    q = tier == "quick"
+    units = cfg_shards("eof", "eof", 14, seed, dict(streams=1 if q else 6, len=24 if q else 40, cutstep=1))
+    units += cfg_shards("tables", "tables", NR, seed, dict(full=0, frac=64), pick=pick_cfgs(NR, 6, seed + 9))
+    return dict(
+        needs_gen=True,
+        mc=[m for m in reader_mcs(tier) if "strict" in m["name"]],
+        rule="valid streams truncated after every backend word, read from the start by every strict reader "
+             "configuration with random table options (items inside the data must decode, the first item "
+             "needing a bit beyond the cut must fail) and by zero-extended readers (never fail, see zeros). "
+             "distinct = (configuration, cut, item crosses the cut).",
+        units=units,
+    )
+
+
+def c12(tier, seed):
+    q = tier == "quick"
+    units = cfg_shards("iow", "wstates", NW, seed, dict(paths=WP, ops="c12", full=0 if q else 1),
+                       pick=pick_cfgs(NW, 12, seed) if q else None)
+    units += cfg_shards("ior", "rstates", NR, seed, dict(paths=RP, ops="c12", full=0 if q else 1, images=1 if q else 2),
+                        pick=pick_cfgs(NR, 12, seed) if q else None)
+    units += shards("hist", "hist", 4 if q else 16, seed + 5, dict(histories=5 if q else 20, len=40))
+    return dict(
+        needs_gen=True,
+        mc=[m for m in writer_mcs(tier)],
+        rule="std::io::Write::write with slices of length 0..40 from every space_left state of every writer "
+             "configuration; std::io::Read::read of 0..40 bytes from every fill state of every reader; byte "
+             "operations interleaved with bit operations in random histories. distinct = (configuration, state, op kind).",
+        units=units,
+    )
+
+
+def c14(tier, seed):
+    q = tier == "quick"
+    return dict(
+        rule="random histories through CountBitWriter/Reader, DbgBitWriter/Reader and Count over Dbg: every "
+             "trait method the wrappers expose (codes with every table option, omega, skips, look-ahead + "
+             "skip-after-peek, flushes, copies in both directions); the public counter after every call is "
+             "compared by TLC with the abstract count. distinct = (endianness, word, wrapper, kind).",
+        units=shards("wrappers", "wrappers", 8 if q else 32, seed, dict(histories=10 if q else 40, len=40)),
+    )
+
+
+ALL_VARIANTS = [(p, f) for p in ("release", "dev") for f in ("", "checks", "no_copy_impls", "checks,no_copy_impls")]
+
+
+def c19(tier, seed):
+    q = tier == "quick"
+    units = []
+    variants = ALL_VARIANTS if not q else [("release", "checks"), ("dev", ""), ("dev", "checks,no_copy_impls")]
+    for vi, v in enumerate(variants):
+        tag = "%s-%s" % (v[0], v[1].replace(",", "+") or "default")
+        units += shards("hist-" + tag, "hist", 2 if q else 6, seed + vi, dict(histories=4 if q else 12, len=40), variant=v)
+        units += shards("dirty-" + tag, "dirty", 1, seed + vi, dict(), variant=v)
+        units += cfg_shards("copy-" + tag, "copy", NR, seed + vi, dict(rpaths=RP, wpaths=WP, full=0),
+                            pick=pick_cfgs(NR, 2 if q else 8, seed + vi), variant=v)
+        units += cfg_shards("codes-" + tag, "codes", 15, seed + vi, dict(mode="alone", full=0),
+                            pick=pick_cfgs(15, 2 if q else 6, seed + vi), variant=v)
+        units += cfg_shards("iow-" + tag, "wstates", NW, seed + vi, dict(paths=WP, ops="c12", full=0),
+                            pick=pick_cfgs(NW, 2 if q else 8, seed + vi), variant=v)
+    return dict(
+        needs_gen=True,
+        rule="the same drivers (random histories, copy matrix, codes alone, io writes) in the build variants "
+             "{release, dev with debug assertions and overflow checks} x {default, checks, no_copy_impls, both}; "
+             "every trace is validated against the same specification (only write_bits may panic, and exactly "
+             "when the build checks and the argument is dirty); the dirty driver issues write_bits(v, n) for "
+             "every n and every single dirty bit. distinct as reported by the drivers.",
+        units=units,
+    )
+
+
+def mc_wordbackend(kind):
+    return dict(name="wordbackend_" + kind, module="MC_WordBackend", workers=1, timeout=600, live=True,
+                cfg_text='SPECIFICATION Spec\nCONSTANTS Kind = "%s"\n MaxLen = 2\n MaxCur = 4\n Zero <- ZeroTok\n'
+                         'VIEW View\nINVARIANTS Inv Deterministic\nCHECK_DEADLOCK FALSE\n' % kind)
+
+
+def c13(tier, seed):
+    q = tier == "quick"
+    return dict(
+        needs_gen=True,
+        mc=[mc_wordbackend(k) for k in ("inf", "strict", "slice", "vec")],
+        module="Trace_WordBackend",
+        exhaustive=True,
+        rule="(a) TLC explores the whole state graph of the four word streams over arrays of length <= 2 "
+             "(cursor invariants, determinism of every call) and emits one history per state; every state x "
+             "every call is executed on the real types for u8..u128 and owned/borrowed storage; (b) every call "
+             "sequence of bounded length over those arrays; (c) long random sequences. TLC validates every "
+             "event against WordBackend. distinct = (kind, storage, state history, call kind).",
+        units=[dict(kind="record", name="wordbackend-%d" % i, driver="wordbackend", module="Trace_WordBackend",
+                    variant=REL, args=dict(seed=seed * 10 + i, paths=os.path.join(GEN, "wordbackend_paths.ndjson"),
+                                           seqlen=3 if q else 5, randlen=2000 if q else 20000))
+               for i in range(1 if q else 5)],
+    )
+
+
+PLANS = {"C13": c13, "C01": c01, "C02": c02, "C03": c03, "C04": c04, "C05": c05, "C06": c06, "C07": c07, "C08": c08,
+         "C09": c09, "C12": c12, "C14": c14, "C19": c19}
 
 
 def setup(check):
-    pass
+    from concurrent.futures import ThreadPoolExecutor
+    check.gen_paths(force=False)
+    check.gen_wordbackend_paths(force=False)
+    # warm the model-checking cache (depends on the spec only)
+    todo = {}
+    for prop, plan in PLANS.items():
+        for mc in plan("quick", 1).get("mc", []):
+            todo[mc["name"]] = mc
+
+    def one(mc):
+        return check.cached_mc(mc["name"], mc["module"], mc.get("cfg"), mc.get("workers", 4), mc.get("timeout", 3600),
+                               cfg_text=mc.get("cfg_text"))
+    with ThreadPoolExecutor(max_workers=max(1, check.NCPU // 4)) as ex:
+        for mc, r in zip(todo.values(), ex.map(one, todo.values())):
+            if not r["ok"]:
+                raise check.ToolError("specification %s: %s" % (mc["name"], r["violated"]))
